@@ -290,6 +290,7 @@ func (r *Run) Finish(outDir string, seed int64, explanation string, assumptions 
 		"known_findings_hit":   knownHits,
 		"unmatched_violations": bad,
 		"notes":                r.Notes,
+		"renames_resolved":     aliasNotes,
 		"all_obligations":      r.Obls,
 	}
 	ev := map[string]interface{}{
